@@ -17,17 +17,18 @@ const ipf = "pkg/util/ipfilter"
 // c05 — IP filter: denied clients never reach a pipeline, allowed ones are unaffected.
 //
 // Mutants tried while writing (scratch worktree, each compiles):
-//   drop `case allowed && blocked` in IPFilter.Allow           → R-C05-1
-//   swap `case allowed` / `case blocked` results                → R-C05-1
-//   defaultResult := f.spec.BlockByDefault (negation dropped)   → R-C05-1
-//   IPFilters.Allow returns true at the first allowing filter   → R-C05-1
-//   drop the rule-level allowIP test in search                  → R-C05-2
-//   `continue` instead of `return forbidden` at path level      → R-C05-2
-//   return the cached route before the chain check              → R-C05-2
-//   ruleIPFilterChain built from spec.IPFilter (not the rule's) → R-C05-3
-//   paths built with the server chain only                      → R-C05-3
-//   insert entries whose ParseCIDR failed                       → R-C05-5
-//   IPv4 mask for every single address                          → R-C05-5
+//
+//	drop `case allowed && blocked` in IPFilter.Allow           → R-C05-1
+//	swap `case allowed` / `case blocked` results                → R-C05-1
+//	defaultResult := f.spec.BlockByDefault (negation dropped)   → R-C05-1
+//	IPFilters.Allow returns true at the first allowing filter   → R-C05-1
+//	drop the rule-level allowIP test in search                  → R-C05-2
+//	`continue` instead of `return forbidden` at path level      → R-C05-2
+//	return the cached route before the chain check              → R-C05-2
+//	ruleIPFilterChain built from spec.IPFilter (not the rule's) → R-C05-3
+//	paths built with the server chain only                      → R-C05-3
+//	insert entries whose ParseCIDR failed                       → R-C05-5
+//	IPv4 mask for every single address                          → R-C05-5
 func c05(c *core.Ctx) string {
 	c.Rule("R-C05-1", "decision table of IPFilter.Allow (exhaustive over parse ok / lookup errors / allowed / blocked): deny ⇔ (blocked ∧ ¬allowed) ∨ ((allowed ⇔ blocked) ∧ blockByDefault), default result on any parse/lookup error; IPFilters.Allow is the conjunction of its filters")
 	c.Rule("R-C05-2", "checks dominate dispatch: every uncached success return of the search has passed the server-, rule- and path-level filters; a failed test returns the 403 route immediately; a cached success route is returned only after its filter chain allowed the client (or the chain is nil)")
